@@ -300,8 +300,39 @@ fn tb_script_data_hash(tb: &TransactionBuilder) -> Result<ScriptDataHash, String
     b.build_tx_unsafe().map_err(|_| "build_tx_unsafe failed".to_string())?.body().script_data_hash().ok_or("no script data hash".to_string())
 }
 
+/// two transactions that differ only in the datum list they EMIT must have different script-data hashes: a datum with the
+/// same structure but different original bytes as the spend datum is emitted as a second element, so the hash must cover it
+fn c09_bytes_variant_scenario() -> Result<(), String> {
+    let build = |with_extra: bool| -> Result<(Vec<u8>, usize), String> {
+        let mut tb = TransactionBuilder::new(&config(true));
+        let script = PlutusScript::new(vec![1u8, 2, 3, 4, 5]);
+        // the integer 7 in its minimal and in a widened head: equal structure, different original bytes (and datum hashes)
+        let datum = PlutusData::from_bytes(vec![0x07]).unwrap();
+        let same_structure_other_bytes = PlutusData::from_bytes(vec![0x18, 0x07]).unwrap();
+        let redeemer = Redeemer::new(&RedeemerTag::new_spend(), &bn(0), &PlutusData::new_bytes(vec![9]), &ExUnits::new(&bn(10), &bn(20)));
+        let mut ib = TxInputsBuilder::new();
+        ib.add_plutus_script_input(&PlutusWitness::new(&script, &datum, &redeemer), &TransactionInput::new(&TransactionHash::from([6u8; 32]), 0), &Value::new(&bn(100_000_000)));
+        tb.set_inputs(&ib);
+        if with_extra { tb.add_extra_witness_datum(&same_structure_other_bytes); }
+        let mut cm = Costmdls::new();
+        let mut model = CostModel::new();
+        for i in 0..4 { model.set(i, &Int::new_i32(100 + i as i32)).unwrap(); }
+        cm.insert(&Language::new_plutus_v1(), &model);
+        tb.calc_script_data_hash(&cm).map_err(|_| "calc_script_data_hash failed".to_string())?;
+        let n = tb_witness_set(&tb)?.plutus_data().map(|d| d.len()).unwrap_or(0);
+        Ok((tb_script_data_hash(&tb)?.to_bytes(), n))
+    };
+    let (h1, n1) = build(false)?;
+    let (h2, n2) = build(true)?;
+    if n1 != n2 && h1 == h2 {
+        return Err(format!("the witness set emits {} datums with the extra datum and {} without, but the script-data hash is the same: the hash does not cover every emitted datum", n2, n1));
+    }
+    Ok(())
+}
+
 pub fn c09_battery<S: Src>(_s: &mut S) {
     let mut failures = Vec::new();
+    if let Err(e) = c09_bytes_variant_scenario() { failures.push(e); }
     for extra in 0..6u8 { if let Err(e) = c09_scenario(extra) { failures.push(e); } }
     for extra in 0..3u8 { if let Err(e) = c18_size_scenario(extra) { failures.push(e); } }
     assert!(failures.is_empty(), "{} of 6 script-data-hash scenarios violate the property; first: {}", failures.len(), failures[0]);
